@@ -384,15 +384,24 @@ func ruleC06FinalPattern(c *Checker) {
 	}
 	for _, fn := range users {
 		found := false
-		for _, ci := range callsIn(fn) {
-			o := calleeObj(ci)
-			if o == nil || recvTypeName(o) != "Regexp" || objPkgPath(o) != "regexp" {
+		// in the function itself or in module helpers it calls
+		for h := range p.reach(fn) {
+			if !p.InModule(h) || (h != fn && !p.family(fn)[h] && h.Package() != fn.Package()) {
 				continue
 			}
-			if ld, ok := canon(ci.Common().Args[0]).(*ssa.UnOp); ok {
-				if g, ok := ld.X.(*ssa.Global); ok {
-					pat[g] = true
-					found = true
+			if h != fn && h.Object() != nil && h.Object().Exported() {
+				continue // another entry point, analysed on its own
+			}
+			for _, ci := range callsIn(h) {
+				o := calleeObj(ci)
+				if o == nil || recvTypeName(o) != "Regexp" || objPkgPath(o) != "regexp" {
+					continue
+				}
+				if ld, ok := canon(ci.Common().Args[0]).(*ssa.UnOp); ok {
+					if g, ok := ld.X.(*ssa.Global); ok {
+						pat[g] = true
+						found = true
+					}
 				}
 			}
 		}
